@@ -12,8 +12,14 @@ BACKENDS = [("c", False), ("c", True), ("cpp", False), ("cpp", True), ("rust", F
 def gen_case(rng, k):
     fs, _ = gen.gen_fileset(rng, nfiles=rng.choice([2, 3]), nstructs=rng.randint(3, 5), nifaces=rng.randint(2, 4),
                             allow_obj_struct=(k % 3 != 0))
+    sibling = None
+    if k % 2 == 0:
+        cands = [f["path"] for f in fs["files"] if f["path"] != fs["main"]]
+        sibling = rng.choice(cands) if cands else None
     for f in fs["files"]:
-        if f["path"] != fs["main"]:
+        if f["path"] == sibling:
+            f["path"] = "src/" + f["path"]      # found only through the main file's own directory
+        elif f["path"] != fs["main"]:
             f["path"] = "inc/" + f["path"]
         else:
             f["path"] = "src/main.idl"
@@ -78,6 +84,18 @@ def run(ctx):
         if not os.path.islink(link):
             os.symlink(root, link)
         variants.append(("symlink", os.path.join(link, "src/main.idl"), os.path.join(link, "inc"), other))
+        # the main file reached through a symbolic link that lives in another directory: plain
+        # includes resolve against the real file's directory, whatever that other directory holds
+        for vname, decoy in (("file-symlink-elsewhere", False), ("file-symlink-decoy", True)):
+            st = os.path.join(work, "cases", str(k), "staging_" + vname)
+            shutil.rmtree(st, ignore_errors=True)
+            os.makedirs(st)
+            os.symlink(A("src/main.idl"), os.path.join(st, "main.idl"))
+            if decoy:
+                for f in fs["files"]:
+                    if f["path"].startswith("src/") and f["path"] != "src/main.idl":
+                        open(os.path.join(st, os.path.basename(f["path"])), "w").write("this is not IDL {{{\n")
+            variants.append((vname, os.path.join(st, "main.idl"), A("inc"), other))
         moved = os.path.realpath(os.path.join(work, "cases", str(k), "moved", "deep", "er"))
         shutil.rmtree(moved, ignore_errors=True)
         shutil.copytree(root, moved)
@@ -115,7 +133,7 @@ def run(ctx):
         "evaluations": total_runs, "distinct_nontrivial": distinct,
         "rule": "file sets with 2-3 files (included files under inc/ reached through -I), 3-5 structs and 2-4 interfaces per file; "
                 "%d variants per case (reference, reruns with fresh hash seeds, relative spellings, ./, redundant components, other cwd, "
-                "symlink, relocated copy) x 6 backend/role outputs; non-trivial = at least 4 of the 6 outputs accepted" % nvar,
+                "symlinked tree, symlinked main file in another directory with and without a decoy include, relocated copy) x 6 backend/role outputs; non-trivial = at least 4 of the 6 outputs accepted" % nvar,
         "samples": [{"idl": {f["path"]: gen.render_file(f) for f in cases[0]["files"]}}] if cases else [],
         "cases": len(cases), "variants_per_case": nvar,
     }
